@@ -94,7 +94,7 @@ def register(R, tier="quick"):
         dn = env["docnum"]
         return [z3.ForAll([k], z3.Implies(k >= 0, L(s, k) == z3.If(k == dn, v.vid, L(s0, k)))),
                 wf_writer(I, env),
-                z3.If(v.vid == d.vid, cnt == s0.fields["_count"], cnt == dn + 1)]
+                cnt >= s0.fields["_count"]]
 
     R.contract(C + ":FixedBytesColumn.Writer.add", props=["C08"],
                setup=lambda I, fixedlen=None: {"self": mk_writer(I, fixedlen), "docnum": z3.Int("docnum"), "v": BytesVal.fresh(I, "v")},
